@@ -212,7 +212,10 @@ let kvhist (type v) (cfg : v cfg) (rn : v runner) (vacuum_prog : (z list -> v ha
          | Done hd -> pr "ok"; seth h hd; conflicts := Z.add !conflicts hd.h_conf
          | Failed e when e = z_of_small 99 -> pr "panic"
          | _ -> pr "err");
-        pr_trace tr "[" "]"
+        pr_trace tr "[" "]";
+        if ro then
+          pr ("RO:" ^ string_of_int (Stdlib.List.length (Stdlib.List.filter (fun (r, _) ->
+            match r with RPut _ | RDel _ -> true | _ -> false) tr)))
     | "set" ->
         let h = rd_int () in let w = rd_z () in let k = rd_sval () in let v = rd_payload () in
         (match kv_set cfg (geth h) w k v with Some h' -> seth h h'; pr "ok" | None -> pr "err")
